@@ -58,6 +58,17 @@ type loopInfo struct {
 	spec     *LoopSpec
 }
 
+type outerTarget struct {
+	v    ssa.Value
+	sarr bool
+}
+
+// writeSet: where a loop writes a heap. unframed: some write could not be classified.
+type writeSet struct {
+	unframed bool
+	outer    map[outerTarget]bool
+}
+
 type trans struct {
 	prog       *Program
 	vc         *VC
@@ -92,6 +103,12 @@ type trans struct {
 	heapReads  int
 	dispatched map[string]bool
 	axiomPkgs  map[string]bool
+	termVal    map[Term]ssa.Value
+	termBlock  map[Term]int
+	termFresh  map[Term]bool
+	loopWrites map[int]map[string]*writeSet // by loop head, from the previous pass
+	curWrites  map[int]map[string]*writeSet
+	inHeadHavoc bool
 }
 
 func (tr *trans) errorf(f string, a ...any) {
@@ -138,8 +155,11 @@ func (tr *trans) getState(st State, name string) Term {
 	return tr.initSym(name)
 }
 
-func (tr *trans) setState(st State, name string, t Term) {
+func (tr *trans) setState(st State, name string, t Term, refs ...Term) {
 	tr.known[name] = true
+	if strings.HasPrefix(name, "H.") || strings.HasPrefix(name, "A.") || strings.HasPrefix(name, "M.") {
+		tr.noteWrite(name, refs)
+	}
 	// name the new version to keep terms small
 	sym := tr.vc.fresh(name)
 	tr.vc.define(sym, tr.stateSort[name], t)
@@ -148,6 +168,9 @@ func (tr *trans) setState(st State, name string, t Term) {
 
 func (tr *trans) havocState(st State, name string) Term {
 	tr.known[name] = true
+	if !tr.inHeadHavoc && (strings.HasPrefix(name, "H.") || strings.HasPrefix(name, "A.") || strings.HasPrefix(name, "M.")) {
+		tr.noteWrite(name, nil)
+	}
 	sym := tr.vc.fresh(name + "~")
 	tr.vc.declConst(sym, tr.stateSort[name])
 	st[name] = sym
@@ -242,21 +265,21 @@ func (tr *trans) store(st State, l *Loc, v Term) {
 			tr.vc.sortOf(l.ty)
 			for i := 0; i < u.NumFields(); i++ {
 				h := tr.structHeap(l.ty, i)
-				tr.setState(st, h, store(tr.getState(st, h), l.ref, app(tr.vc.fieldAcc(l.ty, i), v)))
+				tr.setState(st, h, store(tr.getState(st, h), l.ref, app(tr.vc.fieldAcc(l.ty, i), v)), l.ref)
 			}
 			return
 		case *types.Array:
 			h := tr.arrHeap(u.Elem())
-			tr.setState(st, h, store(tr.getState(st, h), l.ref, v))
+			tr.setState(st, h, store(tr.getState(st, h), l.ref, v), l.ref)
 			return
 		}
 		h := tr.cellHeap(l.ty)
-		tr.setState(st, h, store(tr.getState(st, h), l.ref, v))
+		tr.setState(st, h, store(tr.getState(st, h), l.ref, v), l.ref)
 	case locField:
 		if l.base.kind == locObj {
 			if _, ok := l.base.ty.Underlying().(*types.Struct); ok {
 				h := tr.structHeap(l.base.ty, l.idx)
-				tr.setState(st, h, store(tr.getState(st, h), l.base.ref, v))
+				tr.setState(st, h, store(tr.getState(st, h), l.base.ref, v), l.base.ref)
 				return
 			}
 		}
@@ -421,12 +444,76 @@ func (tr *trans) setVal(v ssa.Value, t Term) {
 	name := q(v.Name())
 	tr.vc.define(name, tr.vc.sortOf(v.Type()), t)
 	tr.vals[v] = name
+	tr.recordTerm(name, v)
+}
+
+func (tr *trans) recordTerm(name Term, v ssa.Value) {
+	tr.termVal[name] = v
+	if in, ok := v.(ssa.Instruction); ok && in.Block() != nil {
+		tr.termBlock[name] = in.Block().Index
+	} else {
+		tr.termBlock[name] = -1
+	}
+	switch v.(type) {
+	case *ssa.Alloc, *ssa.MakeSlice, *ssa.MakeMap, *ssa.MakeClosure, *ssa.MakeChan:
+		tr.termFresh[name] = true
+	}
+}
+
+// noteWrite records, for every loop enclosing the current block, that heap `name` is written at `refs`.
+func (tr *trans) noteWrite(name string, refs []Term) {
+	if tr.curB == nil {
+		return
+	}
+	for _, li := range tr.loopList {
+		if !li.blocks[tr.curB.Index] {
+			continue
+		}
+		m := tr.curWrites[li.head]
+		if m == nil {
+			m = map[string]*writeSet{}
+			tr.curWrites[li.head] = m
+		}
+		ws := m[name]
+		if ws == nil {
+			ws = &writeSet{outer: map[outerTarget]bool{}}
+			m[name] = ws
+		}
+		if len(refs) == 0 {
+			ws.unframed = true
+			continue
+		}
+		for _, r := range refs {
+			base := r
+			sarr := false
+			if strings.HasPrefix(r, "(sarr ") && strings.HasSuffix(r, ")") {
+				base = r[6 : len(r)-1]
+				sarr = true
+			}
+			bi, ok := tr.termBlock[base]
+			switch {
+			case !ok:
+				ws.unframed = true
+			case bi < 0 || !li.blocks[bi]:
+				if v, ok := tr.termVal[base]; ok {
+					ws.outer[outerTarget{v, sarr}] = true
+				} else {
+					ws.unframed = true
+				}
+			case tr.termFresh[base]:
+				// allocated inside the loop: not an object that existed before the loop
+			default:
+				ws.unframed = true
+			}
+		}
+	}
 }
 
 func (tr *trans) freshVal(v ssa.Value, st State) Term {
 	name := q(v.Name())
 	tr.vc.declConst(name, tr.vc.sortOf(v.Type()))
 	tr.vals[v] = name
+	tr.recordTerm(name, v)
 	if inv := tr.typeInv(name, v.Type(), st, 0); inv != "true" {
 		tr.vc.assume(inv)
 	}
@@ -615,11 +702,13 @@ func TranslateFunc(prog *Program, fn *ssa.Function, fc *FuncContract) *trans {
 	var tr *trans
 	known := map[string]bool{"$next": true}
 	loopMods := map[int]map[string]bool{}
+	loopWrites := map[int]map[string]*writeSet{}
 	for pass := 0; pass < 6; pass++ {
 		tr = &trans{prog: prog, fn: fn, fc: fc, key: funcKey(fn), vc: NewVC(prog), vals: map[ssa.Value]Term{}, tuples: map[ssa.Value][]Term{},
 			stateSort: map[string]Sort{"$next": "Int"}, known: map[string]bool{}, in: map[int]State{}, out: map[int]State{}, reach: map[int]Term{},
 			edgeCond: map[[2]int]Term{}, pure: map[string]*fnRef{}, assumed: map[string]bool{}, specRefs: map[string]*fnRef{}, globals: map[string]string{},
-			nobl: map[string]int{}, dispatched: map[string]bool{}}
+			nobl: map[string]int{}, dispatched: map[string]bool{}, termVal: map[Term]ssa.Value{}, termBlock: map[Term]int{}, termFresh: map[Term]bool{},
+			loopWrites: loopWrites, curWrites: map[int]map[string]*writeSet{}}
 		for k := range known {
 			tr.known[k] = true
 		}
@@ -648,6 +737,10 @@ func TranslateFunc(prog *Program, fn *ssa.Function, fc *FuncContract) *trans {
 		for k := range tr.known {
 			known[k] = true
 		}
+		if !sameWrites(loopWrites, tr.curWrites) {
+			stable = false
+		}
+		loopWrites = tr.curWrites
 		if stable {
 			break
 		}
@@ -656,7 +749,8 @@ func TranslateFunc(prog *Program, fn *ssa.Function, fc *FuncContract) *trans {
 	tr2 := &trans{prog: prog, fn: fn, fc: fc, key: funcKey(fn), vc: NewVC(prog), vals: map[ssa.Value]Term{}, tuples: map[ssa.Value][]Term{},
 		stateSort: tr.stateSort, known: map[string]bool{}, in: map[int]State{}, out: map[int]State{}, reach: map[int]Term{},
 		edgeCond: map[[2]int]Term{}, pure: map[string]*fnRef{}, assumed: map[string]bool{}, specRefs: map[string]*fnRef{}, globals: map[string]string{},
-		nobl: map[string]int{}, dispatched: map[string]bool{}}
+		nobl: map[string]int{}, dispatched: map[string]bool{}, termVal: map[Term]ssa.Value{}, termBlock: map[Term]int{}, termFresh: map[Term]bool{},
+		loopWrites: loopWrites, curWrites: map[int]map[string]*writeSet{}}
 	for k := range known {
 		tr2.known[k] = true
 	}
@@ -693,6 +787,7 @@ func (tr *trans) run() {
 		name := q("p." + p.Name())
 		tr.vc.declConst(name, tr.vc.sortOf(p.Type()))
 		tr.vals[p] = name
+		tr.recordTerm(name, p)
 		if tr.fc.Pure[p.Name()] {
 			tr.pure[p.Name()] = tr.pureParamRef(p)
 			continue
@@ -705,6 +800,7 @@ func (tr *trans) run() {
 		name := q("fv." + fv.Name())
 		tr.vc.declConst(name, tr.vc.sortOf(fv.Type()))
 		tr.vals[fv] = name
+		tr.recordTerm(name, fv)
 		if inv := tr.typeInv(name, fv.Type(), st, 0); inv != "true" {
 			tr.vc.assume(inv)
 		}
@@ -826,6 +922,9 @@ func (tr *trans) block(b *ssa.BasicBlock) {
 	tr.cur = st
 	if li != nil {
 		// loop head: havoc what the loop modifies
+		pre := tr.in[bi]
+		nextPre := tr.getState(pre, "$next")
+		tr.inHeadHavoc = true
 		for _, k := range sortedKeys(li.modified) {
 			if k == "$next" {
 				old := tr.getState(st, k)
@@ -833,8 +932,33 @@ func (tr *trans) block(b *ssa.BasicBlock) {
 				tr.vc.assume(app(">=", n, old))
 				continue
 			}
-			tr.havocState(st, k)
+			hpre := tr.getState(pre, k)
+			hnew := tr.havocState(st, k)
+			// automatic loop frame: objects that existed before the loop and are not written by it keep their content
+			if ws := tr.loopWrites[li.head][k]; ws != nil && !ws.unframed {
+				var ds []Term
+				okAll := true
+				for tgt := range ws.outer {
+					vt, ok := tr.vals[tgt.v]
+					if !ok {
+						if _, isParam := tgt.v.(*ssa.Parameter); !isParam {
+							okAll = false
+							break
+						}
+						vt = tr.val(tgt.v)
+					}
+					if tgt.sarr {
+						vt = "(sarr " + vt + ")"
+					}
+					ds = append(ds, not(eq("r", vt)))
+				}
+				if okAll {
+					sort.Strings(ds)
+					tr.vc.assume(fmt.Sprintf("(forall ((r Int)) (! (=> %s (= (select %s r) (select %s r))) :pattern ((select %s r))))", and(append([]Term{app("<", "r", nextPre)}, ds...)...), hnew, hpre, hnew))
+				}
+			}
 		}
+		tr.inHeadHavoc = false
 	}
 	if li != nil {
 		tr.out[-1000-bi] = st.clone()
@@ -1078,4 +1202,28 @@ func (tr *trans) headState(li *loopInfo) State {
 		return s
 	}
 	return tr.in[li.head]
+}
+
+func sameWrites(a, b map[int]map[string]*writeSet) bool {
+	if len(a) != len(b) {
+		return false
+	}
+	for h, ma := range a {
+		mb, ok := b[h]
+		if !ok || len(ma) != len(mb) {
+			return false
+		}
+		for k, wa := range ma {
+			wb, ok := mb[k]
+			if !ok || wa.unframed != wb.unframed || len(wa.outer) != len(wb.outer) {
+				return false
+			}
+			for t := range wa.outer {
+				if !wb.outer[t] {
+					return false
+				}
+			}
+		}
+	}
+	return true
 }
